@@ -102,7 +102,8 @@ MCInTrial(r) ==
         /\ Tick(r, "inner")
      \/ /\ stopped
         /\ TrialEnd(r, [kind |-> "fail", pt |-> t.from, ptx |-> t.from, accepted |-> FALSE,
-                        lambNext |-> Dbl(r, t.lambUsed), inbox |-> TRUE, resClass |-> "na"])
+                        lambNext |-> IF inner[r].dl /\ "F8" \notin Faithful THEN t.lambUsed ELSE Dbl(r, t.lambUsed),
+                        inbox |-> TRUE, resClass |-> "na"])
      \/ /\ ~stopped /\ ~needRead /\ inner[r].k >= 1
         /\ \E kind \in {"accept", "reject"} :
            \E ln \in 0..MaxVal :
